@@ -32,6 +32,7 @@ Inductive cform := Rgb1 | Rgb2 | Rgb3 | Rgb4 | Hash2.
 
 Inductive report :=
 | RLit (w : list N)                                    (* a sequence of the literal key table *)
+| RXterm (k : kname) (mods : N) (alt_form : bool)      (* a key in the xterm PC-style / VT220-style encoding *)
 | RChar (c : N)                                        (* a printable character typed *)
 | RKittyKey (k : kname) (mods : N)
 | RKeyLevel (flags : N)
@@ -95,9 +96,54 @@ Definition color_spec (c : rgba) (form : cform) (upper : bool) : list N :=
       end
   end.
 
+(* xterm ctlseqs, "PC-Style Function Keys" and "VT220-Style Function Keys": cursor keys CSI A..D,
+   Home / End CSI H / F, F1..F4 SS3 P..S, the `~` keys CSI n ~ (1 Home, 2 Insert, 3 Delete, 4 End,
+   5 PageUp, 6 PageDown, 11..15 F1..F5, 17..21 F6..F10, 23 24 F11 F12); a modified key inserts the
+   parameter 1 + mask (shift 1, alt 2, ctrl 4): CSI 1 ; m X and CSI n ; m ~.  Alt sends ESC before
+   the character, Ctrl+letter sends the letter's control code, DEL is backspace. *)
+Definition final_byte (k : kname) : option N :=
+  match k with
+  | KUp => Some 65 | KDown => Some 66 | KRight => Some 67 | KLeft => Some 68 | KEnd => Some 70 | KHome => Some 72
+  | KF n => if (1 <=? n) && (n <=? 4) then Some (79 + n) else None
+  | _ => None
+  end.
+Definition tilde_code (k : kname) (alt_form : bool) : option N :=
+  match k with
+  | KInsert => Some 2 | KDelete => Some 3 | KPageUp => Some 5 | KPageDown => Some 6
+  | KHome => if alt_form then Some 1 else None
+  | KEnd => if alt_form then Some 4 else None
+  | KF n => if (1 <=? n) && (n <=? 5) then (if (n <=? 4) && negb alt_form then None else Some (10 + n))
+            else if (6 <=? n) && (n <=? 10) then Some (11 + n)
+            else if (11 <=? n) && (n <=? 12) then Some (12 + n)
+            else None
+  | _ => None
+  end.
+(* `alt_form`: the VT220-style `~` encoding of Home / End / F1..F4 instead of the final-byte one *)
+Definition xterm_seq (k : kname) (mods : N) (alt_form : bool) : option (list N) :=
+  if 8 <=? mods then None
+  else
+    match k with
+    | KBackspace => if mods =? 0 then Some [127] else None
+    | KChar c =>
+        if (mods =? 2) && (((97 <=? c) && (c <=? 122)) || ((48 <=? c) && (c <=? 57))) then Some [27; c]
+        else if (mods =? 4) && (97 <=? c) && (c <=? 122) then Some [c - 96]
+        else None
+    | _ =>
+        match (if alt_form then None else final_byte k), tilde_code k alt_form with
+        | Some f, _ =>
+            if mods =? 0 then Some ([27; if (80 <=? f) && (f <=? 83) then 79 else 91] ++ [f])
+            else Some ([27; 91; 49; 59] ++ digits (mods + 1) ++ [f])
+        | None, Some n =>
+            if mods =? 0 then Some ([27; 91] ++ digits n ++ [126])
+            else Some ([27; 91] ++ digits n ++ [59] ++ digits (mods + 1) ++ [126])
+        | None, None => None
+        end
+    end.
+
 Definition print (r : report) : list N :=
   match r with
   | RLit w => w
+  | RXterm k mods alt_form => match xterm_seq k mods alt_form with Some w => w | None => [] end
   | RChar c => utf8_encode c
   | RKittyKey k mods =>
       match kitty_code k with
@@ -140,6 +186,7 @@ Fixpoint lit_lookup (tab : list (list N * (kname * N))) (w : list N) : option (k
 Definition denote (tab : list (list N * (kname * N))) (r : report) : tev :=
   match r with
   | RLit w => match lit_lookup tab w with Some (k, mods) => EKey k mods | None => ERaw w end
+  | RXterm k mods _ => EKey k mods
   | RChar c => EKey (KChar c) 0
   | RKittyKey k mods => EKey k mods
   | RKeyLevel flags => EKeyLevel flags
@@ -189,6 +236,7 @@ Section Wf.
   Definition wf (r : report) : bool :=
     match r with
     | RLit w => match lit_lookup lit_table w with Some _ => true | None => false end
+    | RXterm k mods alt_form => match xterm_seq k mods alt_form with Some _ => true | None => false end
     | RChar c => printable c
     | RKittyKey k mods =>
         (mods <? 256)
